@@ -210,6 +210,23 @@ type Worker struct {
 	chanN      int
 	syncMaps   map[*value]*hmap
 	onces      map[*value]*onceState
+	uninit     map[*ssa.Global]bool
+	uninitRead map[string]bool
+	fixedUp    map[*ssa.Global]bool
+}
+
+func (w *Worker) markFixed(g *ssa.Global) {
+	if w.fixedUp == nil {
+		w.fixedUp = map[*ssa.Global]bool{}
+	}
+	w.fixedUp[g] = true
+}
+
+func (w *Worker) noteUninit(g *ssa.Global) {
+	if w.uninit == nil {
+		w.uninit = map[*ssa.Global]bool{}
+	}
+	w.uninit[g] = true
 }
 
 func (w *Worker) noteInitSkip(pkg, why string) {
@@ -350,6 +367,7 @@ type ExploreStats struct {
 	SolverErrs                   []string
 	Steps                        int
 	Params                       map[string]int
+	UninitReads                  map[string]bool // globals of init-skipped packages whose non-constant initialiser did not run and that the code touched
 }
 
 type ExploreOpts struct {
@@ -501,6 +519,12 @@ func (e *Engine) Explore(h Harness, cfg Config, opt ExploreOpts) (*ExploreStats,
 		}
 		for k, v := range w.initSkips {
 			st.InitSkips[k] = v
+		}
+		for k := range w.uninitRead {
+			if st.UninitReads == nil {
+				st.UninitReads = map[string]bool{}
+			}
+			st.UninitReads[k] = true
 		}
 	}
 	st.Wall = time.Since(t0)
